@@ -60,6 +60,7 @@ def Obj.targets (x : Obj) : Attr → List Nat
   | .child => x.child.toList
   | .kids => x.kids
   | .byname => x.byname.map (·.2)
+  | .group => x.group
 
 theorem targets_eq (h : Heap) (a : Attr) (o : Nat) : targets h a o = (h.obj o).targets a := by
   cases a <;> rfl
@@ -848,6 +849,51 @@ theorem mutate_spec {h : Heap} (ht : TreeShaped h) {op : Op} {m : Mut}
           cases a' <;> simp [Obj.targets, hd]
         · rw [← bump_zero (h.setObj o _), targets_set_ne _ _ _ _ _ hp]
     · cases hm
+  | setGroup o n =>
+    simp only [mutate] at hm
+    split at hm
+    · rename_i ho
+      cases hm
+      refine MutKind.mk_change ht .group (Or.inl rfl) ?_ ?_ (Or.inr (by simp))
+      · simp only [scUnregs_append, scUnregs_unregAll, scUnregs_regAll, append_nil, scRegs_append,
+          scRegs_unregAll, scRegs_regAll, nil_append]
+        rw [targets_eq]
+        refine Change.replaceAll ht ho _ _ .group _ ?_ rfl ?_ (freshIds_nodup _ _) (ht.keys o)
+        · intro a' ha'; cases a' <;> first | exact absurd rfl ha' | rfl
+        · intro c hc; exact mem_freshIds.mp hc
+      · intro hf
+        simpa using isEmpty_and_false hf
+    · cases hm
+  | gsplice o i j n =>
+    simp only [mutate] at hm
+    split at hm
+    · rename_i hg
+      obtain ⟨ho, hij, hj⟩ := hg
+      cases hm
+      have hkn : (h.obj o).group.Nodup := ht.nodup o .group
+      have hdisj : ∀ c ∈ freshIds h n, c ∉ (h.obj o).group := by
+        intro c hc hck
+        have := ht.bound o .group c hck
+        have := (mem_freshIds.mp hc).1
+        omega
+      obtain ⟨f1, f2, f3, f4⟩ := splice_facts hkn hij (freshIds_nodup h n) hdisj
+      refine MutKind.mk_change ht .group (Or.inr ⟨rfl, rfl⟩) ?_ ?_ (Or.inr (by simp))
+      · simp only [scUnregs_append, scUnregs_unregAll, scUnregs_regAll, append_nil, scRegs_append,
+          scRegs_unregAll, scRegs_regAll, nil_append]
+        refine Change.ofSet ht ho _ n .group _ _ ?_ f1 f2 (fun c hc => mem_freshIds.mp hc) f3 f4
+          (freshIds_nodup _ _) (ht.keys o)
+        intro a' ha'; cases a' <;> first | exact absurd rfl ha' | rfl
+      · intro hf
+        simpa using isEmpty_and_false hf
+    · cases hm
+  | stray n =>
+    simp only [mutate] at hm
+    cases hm
+    refine MutKind.mk_change ht .child (Or.inl rfl) ?_ (fun _ => ⟨rfl, rfl⟩) (Or.inr rfl)
+    refine Change.ofSet ht ht.pos (h.obj root) n .child [] [] (fun _ _ => rfl) ?_ (by simp) (by simp) ?_
+      nodup_nil nodup_nil (ht.keys root)
+    · intro c; simp [root]
+    · rw [← targets_eq]; exact ht.nodup _ _
   | probe o f =>
     simp only [mutate] at hm
     split at hm
